@@ -645,8 +645,13 @@ def _gen_step(rng, kind, vals):
         i = _pick(rng, vals, lambda a: a.ndim >= 1 and a.dtype.kind == "f" and a.size > 0)
         if i is None:
             return None
-        return dict(op=rng.choice(["nansum", "nanmax", "nanmin", "nanmean"]), args=[i],
-                    kw=dict(axis=rng.choice([None] + list(range(A(i).ndim)))))
+        op = rng.choice(["nansum", "nanmax", "nanmin", "nanmean", "nanprod", "nanstd", "nanvar", "nanmedian", "nanargmax", "nanargmin"])
+        axis = rng.choice([None] + list(range(A(i).ndim)))
+        if op in ("nanmedian", "nanargmax", "nanargmin") and (axis is None and (op == "nanmedian" or A(i).ndim > 1)):
+            axis = rng.randrange(A(i).ndim)
+        if op == "nanprod" and A(i).size > 12:
+            op = "nansum"
+        return dict(op=op, args=[i], kw=dict(axis=axis))
     return None
 
 
